@@ -138,3 +138,12 @@ pub fn dsv_build_index_bmi2(text: &[u8], config: &crate::dsv::DsvConfig) -> Opti
 pub fn dsv_build_index_dispatch(text: &[u8], config: &crate::dsv::DsvConfig) -> crate::dsv::DsvIndex {
     crate::dsv::build_index(text, config)
 }
+
+// ---------------------------------------------------------------------------
+// DSV index from raw words (C21): `DsvIndexLightweight` is not nameable outside the crate
+// ---------------------------------------------------------------------------
+
+/// `DsvIndex::new_lightweight(DsvIndexLightweight::new(markers, newlines, text_len))`.
+pub fn dsv_index_from_words(markers: Vec<u64>, newlines: Vec<u64>, text_len: usize) -> crate::dsv::DsvIndex {
+    crate::dsv::DsvIndex::new_lightweight(crate::dsv::verif_index_lightweight_new(markers, newlines, text_len))
+}
